@@ -26,7 +26,7 @@ inductive Op
   | list      -- walkList(node.F, f)
   | comments  -- walkComments(node.F, f)
   | split (afterNil : Bool)
-      -- for _, c := range node.F { if pred(c) { <walk c last>; break }; Walk(&c, f) }
+      -- for i, c := range node.F { if pred(c) { trailing = node.F[i:]; break }; Walk(&c, f) }
       -- afterNil = true: the trailing comment is walked by a `defer`, i.e. after f(nil)
   deriving DecidableEq, Repr
 
@@ -89,11 +89,12 @@ mutual
     | k :: ks =>
       if k.slot = s then (if k.flag then [] else walk tbl keep k ++ walkLead tbl keep s ks)
       else walkLead tbl keep s ks
-  /-- the first flagged comment of slot `s`; the ones after it are never visited (`break`) -/
+  /-- the first flagged comment of slot `s` and every later comment of that slot
+      (`trailing = node.F[i:]`, walked by walkComments before f(nil)) -/
   def walkTrail (tbl : Table) (keep : Nat → Bool) (s : Nat) : List Tree → List Ev
     | [] => []
     | k :: ks =>
-      if k.slot = s then (if k.flag then walk tbl keep k else walkTrail tbl keep s ks)
+      if k.slot = s then (if k.flag then walk tbl keep k ++ walkSel tbl keep s ks else walkTrail tbl keep s ks)
       else walkTrail tbl keep s ks
 end
 
@@ -189,10 +190,10 @@ def noDefer (ti : TypeInfo) : Bool :=
 
 def slotCount (s : Nat) (kids : List Tree) : Nat := (kids.filter (·.slot = s)).length
 
-/-- In a split slot at most the last comment is flagged. -/
-def splitOk (s : Nat) : List Tree → Bool
-  | [] => true
-  | k :: ks => if k.slot = s && k.flag then (ks.all fun k' => k'.slot != s) && splitOk s ks else splitOk s ks
+/-- Split slots need no side condition any more: the unflagged prefix is walked in place, the
+    rest (from the first flagged comment on) after the other children. Kept for the `wf` shape. -/
+def splitOk (_s : Nat) : List Tree → Bool
+  | _ => true
 
 mutual
   def wf (tbl : Table) : Tree → Bool
